@@ -25,7 +25,7 @@ def encoder_models(chk, tier, pid="C06"):
                         invariants=["C06_NoLoss", "C06_RetExact", "C06_Fits", "C06_AllDelivered"])
     res, verdict = vlib.model_check("MCEncoder", cfg, workers=vlib.NCPU, timeout=1500, xmx="12g")
     chk.add_model(f"MCEncoder(B=12,steps={steps})", res, verdict)
-    for bug in ["thr64_8", "thr16_2", "thrarr_8", "neg_minus"]:
+    for bug in ["thr64_8", "thr16_2", "thrarr_8", "neg_minus", "drop_on_fault"]:
         cfgb = vlib.make_cfg(work / f"MCEncoder_{bug}.cfg", spec="MCSpec",
                              constants={"B": 12, "Bug": f'"{bug}"', "MaxSteps": 1, "MaxStr": 12},
                              invariants=["C06_NoLoss", "C06_RetExact", "C06_Fits", "C06_AllDelivered"])
